@@ -341,3 +341,77 @@ for _n in ('_wrap_check', '_make_and_expr', '_make_or_expr', '_make_not_expr', '
            '_mix_or_and_expr'):
     NATIVE['_parser:ParseState.' + _n] = _reducer_native(_n)
     SEARCH['_parser:ParseState.' + _n] = _reducer_search(_n)
+
+
+# ------------------------------------------------------------------ C10: Enforcer._is_directory_updated
+def dirstamp_case(layout, stamps, cached):
+    """layout: 'missing' | 'file' | list of entry names; stamps: {'.': t, name: t}; cached: None | {} | {'mtime': t}.
+    Runs the real function on a scratch directory and reads the contract natively."""
+    import os
+    import shutil
+    import tempfile
+    from oslo_policy import policy
+    root = tempfile.mkdtemp(prefix='verif_idu_')
+    try:
+        path = os.path.join(root, 'policy.d')
+        times = []
+        if layout == 'file':
+            open(path, 'w').close()
+        elif layout != 'missing':
+            os.mkdir(path)
+            for n in layout:
+                open(os.path.join(path, n), 'w').close()
+                os.utime(os.path.join(path, n), (stamps[n], stamps[n]))
+                times.append(stamps[n])
+            os.utime(path, (stamps['.'], stamps['.']))
+            times.append(stamps['.'])
+        cache = {}
+        if cached is not None:
+            cache[path] = dict(cached)
+        old = (cached or {}).get('mtime', 0)
+        try:
+            got = ('ret', policy.Enforcer._is_directory_updated(cache, path))
+        except Exception as e:      # noqa
+            got = ('exc', type(e).__name__)
+        desc = 'layout=%r stamps=%r cached=%r' % (layout, stamps, cached)
+        if layout == 'file':
+            return (got != ('exc', 'ValueError')), '%s: an existing non-directory must raise ValueError, got %r' % (desc, got)
+        if got[0] != 'ret' or not isinstance(got[1], bool):
+            return True, '%s: got %r' % (desc, got)
+        newer = any(t > old for t in times)
+        if got[1] != newer:
+            return True, '%s: returned %r although %s is newer than the kept stamp %r' % (
+                desc, got[1], 'something' if newer else 'nothing', old)
+        kept = cache.get(path, {}).get('mtime')
+        if got[1] and not (kept is not None and kept > old and all(kept >= t for t in times)):
+            return True, '%s: reported updated but keeps stamp %r (times %r)' % (desc, kept, times)
+        if not got[1] and cached is not None and cache.get(path) != cached:
+            return True, '%s: reported unchanged but rewrote its entry to %r' % (desc, cache.get(path))
+        return False, 'agrees (%r)' % (got[1],)
+    finally:
+        shutil.rmtree(root, ignore_errors=True)
+
+
+def _dirstamp_search():
+    import itertools
+    T = [100.0, 200.0, 300.0]
+    for layout in ('missing', 'file', [], ['a'], ['a', 'b']):
+        names = ['.'] + (layout if isinstance(layout, list) else [])
+        for ts in itertools.product(T, repeat=len(names) if isinstance(layout, list) else 1):
+            stamps = dict(zip(names, ts))
+            for cached in (None, {}, {'mtime': 100.0}, {'mtime': 200.0}, {'mtime': 300.0}):
+                breach, detail = dirstamp_case(layout, stamps, cached)
+                if breach:
+                    return ({'layout': layout, 'stamps': stamps, 'cached': cached}, detail)
+    return None
+
+
+SEARCH['policy:Enforcer._is_directory_updated'] = _dirstamp_search
+
+
+@native('policy:Enforcer._is_directory_updated')
+def n_dirstamp(inp):
+    # solver models name abstract paths; the native reading re-runs the small-scope search instead
+    if 'layout' in inp:
+        return dirstamp_case(inp['layout'], inp['stamps'], inp['cached'])
+    return False, 'abstract file system model: see the small-scope search'
